@@ -20,12 +20,14 @@
 (*            convention (one of the three, or mixed per line), noise lines before     *)
 (*            each procedure                                                          *)
 (*   prior  : a handled and resumed run-time error happens before the fault            *)
+(*   helpers: calls that have already returned before each call site and the fault     *)
 (***************************************************************************)
 EXTENDS Integers, Sequences, FiniteSets, TLC, Json
 
-CONSTANTS MaxCall, MaxNest, Rich
+CONSTANTS MaxCall, MaxNest, Rich,
+          FaultSel      \* "base" = the named faults, "all" = also every host statement x fault expression
 
-Faults == {
+BaseFaults == {
   [n |-> "s-missing-operand", stage |-> "parse", fams |-> {"SyntaxError"}, form |-> "simple"],
   [n |-> "s-unbalanced", stage |-> "parse", fams |-> {"SyntaxError"}, form |-> "simple"],
   [n |-> "s-missing-then", stage |-> "parse", fams |-> {"SyntaxError"}, form |-> "ifline"],
@@ -69,6 +71,47 @@ Faults == {
   [n |-> "r-ifc", stage |-> "run", fams |-> {"IllegalFunctionCall"}, form |-> "simple"],
   [n |-> "r-ifc-mid", stage |-> "run", fams |-> {"IllegalFunctionCall"}, form |-> "simple"] }
 
+\* the fault as an EXPRESSION placed at every kind of syntactic position of a host statement
+Hosts == {
+  [n |-> "h-assign", form |-> "simple"],
+  [n |-> "h-assign-nested", form |-> "simple"],
+  [n |-> "h-print", form |-> "simple"],
+  [n |-> "h-print-comma", form |-> "simple"],
+  [n |-> "h-subarg", form |-> "simple"],
+  [n |-> "h-funarg", form |-> "simple"],
+  [n |-> "h-subscript-r", form |-> "simple"],
+  [n |-> "h-subscript-w", form |-> "simple"],
+  [n |-> "h-builtin", form |-> "simple"],
+  [n |-> "h-unary", form |-> "simple"],
+  [n |-> "h-not", form |-> "simple"],
+  [n |-> "h-ifline", form |-> "ifline"],
+  [n |-> "h-dim", form |-> "simple"],
+  [n |-> "h-if", form |-> "header"],
+  [n |-> "h-while", form |-> "header"],
+  [n |-> "h-for-lo", form |-> "header"],
+  [n |-> "h-for-hi", form |-> "header"],
+  [n |-> "h-for-step", form |-> "header"],
+  [n |-> "h-select", form |-> "header"],
+  [n |-> "h-dowhile", form |-> "header"],
+  [n |-> "h-dountil", form |-> "header"],
+  [n |-> "h-case", form |-> "inner"],
+  [n |-> "h-case-range", form |-> "inner"],
+  [n |-> "h-case-is", form |-> "inner"],
+  [n |-> "h-elseif", form |-> "inner"],
+  [n |-> "h-until", form |-> "closer"],
+  [n |-> "h-loopwhile", form |-> "closer"] }
+Exprs == {
+  [n |-> "e-div", stage |-> "run", fams |-> {"DivisionByZero"}],
+  [n |-> "e-mod", stage |-> "run", fams |-> {"DivisionByZero"}],
+  [n |-> "e-ovf", stage |-> "run", fams |-> {"Overflow"}],
+  [n |-> "e-sub", stage |-> "run", fams |-> {"SubscriptOutOfRange"}],
+  [n |-> "e-ifc", stage |-> "run", fams |-> {"IllegalFunctionCall"}],
+  [n |-> "e-str", stage |-> "lint", fams |-> {"TypeMismatch", "ArgumentTypeMismatch"}],
+  [n |-> "e-argc", stage |-> "lint", fams |-> {"ArgumentCountMismatch"}],
+  [n |-> "e-argc-b", stage |-> "lint", fams |-> {"ArgumentCountMismatch"}] }
+ProductFaults == {[n |-> h.n \o "|" \o e.n, stage |-> e.stage, fams |-> e.fams, form |-> h.form] : h \in Hosts, e \in Exprs}
+Faults == IF FaultSel = "all" THEN BaseFaults \cup ProductFaults ELSE BaseFaults
+
 BlockKinds == {"if", "else", "elseif", "for", "while", "do", "dowhile", "select", "caseelse"}
 ProcKinds == {"sub", "fun"}
 SeqsUpTo(S, n) == UNION {[1..k -> S] : k \in 0..n}
@@ -83,6 +126,8 @@ Eol == {"crlf", "lf", "cr", "mixed"}
 Pre == IF Rich THEN 0..3 ELSE {0}
 CsNest == IF Rich THEN {"none", "if", "for", "select", "oneline"} ELSE {"none"}
 Prior == IF Rich THEN 0..1 ELSE {0}
+\* calls that have already RETURNED before each call site and before the fault (the call stack must forget them)
+Helpers == IF Rich THEN 0..2 ELSE {1}
 
 VARIABLES phase, c
 vars == <<phase, c>>
@@ -96,8 +141,8 @@ PickFault ==
 
 PickChain ==
   /\ phase = "chain"
-  /\ \E ch \in SeqsUpTo(ProcKinds, MaxCall) : \E cs \in CsNest : \E cf \in 0..(IF Rich THEN 1 ELSE 0) :
-        c' = c @@ [chain |-> ch, csnest |-> IF ch = <<>> THEN "none" ELSE cs, csform |-> IF ch = <<>> THEN 0 ELSE cf]
+  /\ \E ch \in SeqsUpTo(ProcKinds, MaxCall) : \E cs \in CsNest : \E cf \in 0..(IF Rich THEN 1 ELSE 0) : \E hp \in Helpers :
+        c' = c @@ [chain |-> ch, csnest |-> IF ch = <<>> THEN "none" ELSE cs, csform |-> IF ch = <<>> THEN 0 ELSE cf, helpers |-> hp]
   /\ phase' = "nest"
 
 \* "oneline" only innermost and only around a statement that is a whole simple statement
